@@ -110,6 +110,16 @@ def _dedent_to_first_line(src):
 SOURCES = SourceIndex()
 
 
+def _all_class_attrs(cls):
+    """names defined by the class or its bases below NativeModel/object (user-defined dunders only)"""
+    out = set()
+    for k in cls.__mro__:
+        if k in (object, NativeModel):
+            continue
+        out.update(k.__dict__)
+    return out
+
+
 # ------------------------------------------------------------------------------------------------
 # path
 
@@ -1188,6 +1198,16 @@ class Interp:
                 return r
             t = truth(r)
             return (not t) if isinstance(t, bool) else SV(z3.Not(t), "bool")
+        if isinstance(a, NativeModel) or isinstance(b, NativeModel):
+            # a contract stub that defines the rich comparison itself (array-like stubs returning masks)
+            names = {ast.Lt: ("__lt__", "__gt__"), ast.LtE: ("__le__", "__ge__"), ast.Gt: ("__gt__", "__lt__"),
+                     ast.GtE: ("__ge__", "__le__"), ast.Eq: ("__eq__", "__eq__"), ast.NotEq: ("__ne__", "__ne__")}.get(op)
+            if names is not None:
+                for x, y, nm in ((a, b, names[0]), (b, a, names[1])):
+                    if isinstance(x, NativeModel) and nm in _all_class_attrs(type(x)):
+                        r = getattr(x, nm)(y)
+                        if r is not NotImplemented:
+                            return r
         if isinstance(a, SymObj) or isinstance(b, SymObj):
             if op in (ast.Eq, ast.NotEq):
                 nm = "__eq__" if op is ast.Eq else "__ne__"
@@ -1416,6 +1436,8 @@ class Interp:
             return slice(self.eval(sl.lower, env) if sl.lower else None,
                          self.eval(sl.upper, env) if sl.upper else None,
                          self.eval(sl.step, env) if sl.step else None)
+        if isinstance(sl, ast.Tuple) and any(isinstance(x, ast.Slice) for x in sl.elts):
+            return tuple(self.eval_slice(x, env) for x in sl.elts)      # a[:, mask]
         return self.eval(sl, env)
 
     def e_Subscript(self, e, env):
@@ -1519,7 +1541,7 @@ class Interp:
                 obj[idx] = v
                 return
             raise Unsupported("store at symbolic index into %s" % type(obj).__name__)
-        if is_symbolic(v) and not isinstance(obj, (list, dict)):
+        if is_symbolic(v) and not isinstance(obj, (list, dict)) and not (isinstance(obj, NativeModel) and hasattr(type(obj), "__setitem__")):
             raise Unsupported("store of symbolic value into %s" % type(obj).__name__)
         try:
             obj[idx] = v
